@@ -7,8 +7,8 @@ from .. import cliwork, drivers, engineb, gen, procs
 from ..runner import jdump
 from ..world import SEAM_KINDS, INPUT_SEAMS, OUTPUT_SEAMS, SIMROOT
 
-RUNS = {"quick": 700, "thorough": 30000}
-DUP = {"quick": 175, "thorough": 30000}
+RUNS = {"quick": 700, "thorough": 15000}
+DUP = {"quick": 175, "thorough": 15000}
 WALL = {"quick": 1500, "thorough": 6 * 3600}
 RUN_TIMEOUT = {"quick": 600, "thorough": 1200}
 DIGEST_MISMATCH_IS_VIOLATION = True
@@ -142,9 +142,11 @@ def deep_text(rng):
     return ".word " + "+".join(["x%d" % i for i in range(n)]) + "\n" + "".join("x%d = x%d * 2\n" % (i, i + 1) for i in range(n)) + "x%d = 1\n" % n
 
 
-def make_history(rng, ns_unused=None):
+def make_history(rng, tier="quick"):
     k = rng.random()
-    if k < 0.6:
+    if tier == "thorough" and k < 0.25:
+        n = rng.randint(30, 47)
+    elif k < 0.6:
         n = rng.randint(1, 6)
     elif k < 0.9:
         n = rng.randint(6, 16)
@@ -275,7 +277,7 @@ def diff_keys(a, b):
 
 def run_one(ns, i, seed_i, tier):
     rng = random.Random(seed_i)
-    ops = make_history(rng)
+    ops = make_history(rng, tier)
     ops = resolve_pending_faults(ns, ops, rng)
     counters = {"evaluations": 0, "histories": 1, "operations": 0, "references": 0, "sim:io_events": 0,
                 "probe:invariant_broken_after_op": 0, "probe:probe_set_inserted": 0}
